@@ -111,10 +111,15 @@ func rewrite(path string, base int, short string) (int, []string, error) {
 	n := 0
 	var where []string
 	curFn := "?"
+	syncNext := false // the point about to be inserted stands next to a synchronisation statement
 	point := func(at token.Pos) ast.Stmt {
 		id := base + n
 		n++
-		where = append(where, fmt.Sprintf("%s:%d %s", short, fset.Position(at).Line, curFn))
+		tag := ""
+		if syncNext {
+			tag = "*" // (a leading '*' in SiteNames marks such a site; verifyield prefers them)
+		}
+		where = append(where, fmt.Sprintf("%s%s:%d %s", tag, short, fset.Position(at).Line, curFn))
 		return &ast.ExprStmt{X: &ast.CallExpr{
 			Fun:  &ast.SelectorExpr{X: ast.NewIdent("verifyield"), Sel: ast.NewIdent("Point")},
 			Args: []ast.Expr{&ast.BasicLit{Kind: token.INT, Value: strconv.Itoa(id)}},
@@ -124,8 +129,10 @@ func rewrite(path string, base int, short string) (int, []string, error) {
 	var visit func(n ast.Node)
 	list = func(l []ast.Stmt) []ast.Stmt {
 		out := make([]ast.Stmt, 0, 2*len(l))
-		for _, s := range l {
+		for i, s := range l {
+			syncNext = isSync(s) || (i > 0 && isSync(l[i-1]))
 			out = append(out, point(s.Pos()), s)
+			syncNext = false
 			visit(s)
 		}
 		return out
@@ -231,6 +238,78 @@ func rewrite(path string, base int, short string) (int, []string, error) {
 	return n, where, os.WriteFile(path, out.Bytes(), 0o644)
 }
 
+// isSync says whether a statement is itself a synchronisation or scheduling point: go, send, receive, select, a call
+// of Lock/Unlock/RLock/RUnlock/Wait/Done/Add/Store/Load/CompareAndSwap/Close/close/dispatch... (by name), or a
+// deferred one. A yield right before or right after such a statement is where lost-update, check-then-act and
+// published-too-early windows open.
+func isSync(s ast.Stmt) bool {
+	switch x := s.(type) {
+	case *ast.GoStmt, *ast.SendStmt, *ast.SelectStmt:
+		return true
+	case *ast.LabeledStmt:
+		return isSync(x.Stmt)
+	case *ast.ForStmt, *ast.RangeStmt, *ast.IfStmt, *ast.SwitchStmt, *ast.TypeSwitchStmt, *ast.BlockStmt:
+		// only the header of a compound statement counts
+		found := false
+		hdr := func(e ast.Node) {
+			if e != nil {
+				found = found || hasSyncExpr(e)
+			}
+		}
+		switch y := x.(type) {
+		case *ast.IfStmt:
+			if y.Init != nil {
+				hdr(y.Init)
+			}
+			hdr(y.Cond)
+		case *ast.ForStmt:
+			if y.Cond != nil {
+				hdr(y.Cond)
+			}
+		case *ast.RangeStmt:
+			hdr(y.X)
+		case *ast.SwitchStmt:
+			if y.Tag != nil {
+				hdr(y.Tag)
+			}
+		}
+		return found
+	}
+	return hasSyncExpr(s)
+}
+
+var syncNames = map[string]bool{"Lock": true, "Unlock": true, "RLock": true, "RUnlock": true, "TryLock": true, "TryRLock": true, "Wait": true, "Done": true, "Add": true,
+	"Store": true, "Load": true, "Swap": true, "CompareAndSwap": true, "Close": true, "close": true, "dispatch": true, "Signal": true, "Broadcast": true,
+	"StoreInt32": true, "LoadInt32": true, "AddInt32": true, "StoreInt64": true, "LoadInt64": true, "AddInt64": true, "StoreUint64": true, "LoadUint64": true, "AddUint64": true,
+	"CompareAndSwapInt32": true, "CompareAndSwapInt64": true, "die": true, "cancel": true}
+
+func hasSyncExpr(n ast.Node) bool {
+	found := false
+	ast.Inspect(n, func(x ast.Node) bool {
+		switch y := x.(type) {
+		case *ast.FuncLit:
+			return false
+		case *ast.UnaryExpr:
+			if y.Op == token.ARROW {
+				found = true
+			}
+		case *ast.CallExpr:
+			switch f := y.Fun.(type) {
+			case *ast.SelectorExpr:
+				if syncNames[f.Sel.Name] {
+					found = true
+				}
+			case *ast.Ident:
+				if syncNames[f.Name] {
+					found = true
+				}
+			}
+		}
+		return !found
+	})
+	return found
+}
+
 const yieldSrc = `// Package verifyield is generated by /verif/harness/cmd/perturb; it exists only in the perturbed scratch copy.
 package verifyield
 
@@ -246,12 +325,16 @@ import (
 var (
 	enabled int32
 	seed    uint64
-	hotMod  uint64 = 24
-	coldMod uint64 = 512
+	hotMod  uint64 = 16
+	syncMod uint64 = 5
+	coldMod uint64 = 384
 	ctr     uint64
 	passes  uint64
 	fired   uint64
 	slept   uint64
+	sleptNs int64
+	spunNs  int64
+	start   = time.Now()
 	reached [NumSites + 1]uint32
 	firedAt [NumSites + 1]uint32
 	hot     [NumSites + 1]uint32
@@ -293,7 +376,11 @@ func Reseed(s uint64) {
 	sd := atomic.LoadUint64(&seed)
 	for i := range hot {
 		h := uint32(0)
-		if mix(uint64(i)*0x9e3779b97f4a7c15^sd)%hotMod == 0 {
+		m := hotMod
+		if i < NumSites && len(SiteNames[i]) > 0 && SiteNames[i][0] == '*' {
+			m = syncMod // next to a lock, channel, atomic, go or wait statement
+		}
+		if mix(uint64(i)*0x9e3779b97f4a7c15^sd)%m == 0 {
 			h = 1
 		}
 		atomic.StoreUint32(&hot[i], h)
@@ -315,7 +402,7 @@ func Point(site uint32) {
 	c := atomic.AddUint64(&ctr, 1)
 	r := mix(c*0x9e3779b97f4a7c15 ^ atomic.LoadUint64(&seed))
 	if atomic.LoadUint32(&hot[site]) != 0 {
-		if r&3 != 0 {
+		if r&1 != 0 {
 			return
 		}
 	} else if r%coldMod != 0 {
@@ -326,15 +413,31 @@ func Point(site uint32) {
 		atomic.StoreUint32(&firedAt[site], 1)
 	}
 	switch k := (r >> 16) % 20; {
-	case k < 13:
+	case k < 9:
 		runtime.Gosched()
-	case k < 18:
-		for i := uint64(0); i < 2+(r>>24)%24; i++ {
+	case k < 16:
+		// lose the processor for 5..80 us (yielding all the while); rationed to a fifth of the process's life
+		d := time.Duration(5+(r>>24)%76) * time.Microsecond
+		if atomic.LoadInt64(&spunNs)+int64(d) > int64(time.Since(start))/5 {
+			runtime.Gosched()
+			return
+		}
+		atomic.AddInt64(&spunNs, int64(d))
+		for t0 := time.Now(); time.Since(t0) < d; {
 			runtime.Gosched()
 		}
 	default:
+		// a real sleep: on this kind of machine it lasts about a millisecond whatever is asked for. Rationed, by
+		// what it really took, to a fifth of the time the process has been running, so that a long batch is perturbed
+		// from its first case to its last and takes at most about that much longer; over the ration it yields instead
+		if atomic.LoadInt64(&sleptNs) > int64(time.Since(start))/5 {
+			runtime.Gosched()
+			return
+		}
 		atomic.AddUint64(&slept, 1)
+		t0 := time.Now()
 		time.Sleep(time.Duration(1+(r>>24)%120) * time.Microsecond)
+		atomic.AddInt64(&sleptNs, int64(time.Since(t0)))
 	}
 }
 
@@ -344,6 +447,8 @@ func Stats() map[string]int64 {
 		"yield_passes": int64(atomic.LoadUint64(&passes)),
 		"yield_fired":  int64(atomic.LoadUint64(&fired)),
 		"yield_sleeps": int64(atomic.LoadUint64(&slept)),
+		"yield_slept_ms": atomic.LoadInt64(&sleptNs) / 1e6,
+		"yield_spun_ms":  atomic.LoadInt64(&spunNs) / 1e6,
 		"yield_sites":  NumSites,
 	}
 	for i := 0; i < NumSites; i++ {
